@@ -7,6 +7,7 @@ mod areas;
 mod astwire;
 mod objwire;
 mod ctx;
+mod dump_os;
 mod rng;
 mod tree;
 
@@ -37,6 +38,7 @@ fn main() {
         let loc = info.location().map(|l| format!("{}:{}", l.file(), l.line())).unwrap_or_default();
         LAST_PANIC.with(|p| *p.borrow_mut() = loc);
     }));
+    if area == "dump-os" { dump_os::run(&out); return; }
     let ctx = Ctx::new(tier, seed, out);
     if !areas::run(&area, &ctx, replay.as_deref()) {
         eprintln!("unknown area {area}");
